@@ -92,7 +92,7 @@ def snap(v):
                 )
             )
             out.append(
-                tuple((norm_label(o.label), bool(o.dual)) for o in raw_oddpos(v))
+                tuple(label_of(o) for o in raw_oddpos(v))
             )
         return tuple(out)
     if k == "V":
@@ -179,7 +179,7 @@ def structure(v):
         ]
         if k == "F":
             st.append(
-                tuple((norm_label(o.label), bool(o.dual)) for o in raw_oddpos(v))
+                tuple(label_of(o) for o in raw_oddpos(v))
             )
         return tuple(st)
     return (k,)
@@ -260,6 +260,14 @@ def same_tensor(v1, v2, rtol=1e-9, atol=1e-11, zero_equiv=False,
 # ------------------------------------------------------------------ clone
 
 
+def label_of(o):
+    """(label, dual) of an odd-position entry; an entry that is not a
+    FermionicOperator (a library defect the auditor reports) is kept as it is."""
+    if hasattr(o, "label") and hasattr(o, "dual"):
+        return (norm_label(o.label), bool(o.dual))
+    return ("!not-an-operator", repr(o))
+
+
 def clone_index(ix):
     si = ix.subinfo
     sub = None
@@ -290,7 +298,8 @@ def clone(v):
         if k == "F":
             kw["phases"] = dict(raw_phases(v))
             kw["oddpos"] = [
-                sr.FermionicOperator(o.label, o.dual) for o in raw_oddpos(v)
+                (sr.FermionicOperator(o.label, o.dual) if hasattr(o, "label") else o)
+                for o in raw_oddpos(v)
             ]
         # (the harness's own constructions are not subject to the library's
         # debug self-checks, which e.g. refuse non-finite data)
